@@ -22,7 +22,8 @@ LEVEL_TEXT = (
 TRUSTED = "control run of the same script in a fresh universe; harness logging wrappers; gc"
 RULE = (
     "case = universe setup + segments; each segment = nesting depth 0-3, list of ops from the C01 alphabet (constructors, "
-    "graph/node/value/collection mutators, setters), and whether a harness exception is thrown out of the with-blocks. "
+    "graph/node/value/collection mutators, setters, constants that cannot be printed, lazily evaluated constants whose evaluation "
+    "count is part of the compared state, a long-lived Tape per graph), and whether a harness exception is thrown out of the with-blocks. "
     "Non-trivial = >=1 instrumented call inside >=1 journal and (depth>=2, or an exception left a block, or a rejected "
     "call happened inside). distinct = case JSON."
 )
